@@ -91,7 +91,7 @@ def initial_cases(tier, seed):
             continue
         seen.add(k)
         cases.append(dict(p, kind="nldf", seed=seed))
-    for mol, cls in itertools.product(["HF", "H2O", "LiHgc"], ["SDMX", "SDMXG", "SDMX1", "SDMXG1", "SDMXFull"]):
+    for mol, cls in itertools.product(["HF", "H2O", "LiHgc", "LiHgcp"], ["SDMX", "SDMXG", "SDMX1", "SDMXG1", "SDMXFull"]):
         for nspin in (1, 2):
             cases.append({"kind": "sdmx", "mol": mol, "cls": cls, "nspin": nspin, "seed": seed})
     # fractional-Laplacian orbital features at the exponents where (-Lapl)^s is a differential operator (s = 0, 1): every
@@ -115,7 +115,7 @@ def _mol_dm(name):
 
         from mc import fixtures as F
 
-        mol = gto.M(atom=F.MOLS[name]["atom"], basis=F.MOLS[name]["basis"] if name.endswith("gc") else "def2-svp", verbose=0)
+        mol = gto.M(atom=F.MOLS[name]["atom"], basis=F.MOLS[name]["basis"] if ("gc" in name) else "def2-svp", verbose=0)
         ks = dft.RKS(mol)
         ks.xc = "PBE"
         ks.grids.level = 1
@@ -351,7 +351,7 @@ def run_sdmx(case):
     # the generally contracted molecule carries a very diffuse shell (exponent 0.06) for which the package's default
     # SDMX exponent ladder is not converged (measured 5e-2 for j = 2): it is used for the fast-vs-reference relation,
     # which is where the contraction bookkeeping matters; the definition clause is decided on HF and H2O
-    if case["cls"] != "SDMXFull" and not case["mol"].endswith("gc"):
+    if case["cls"] != "SDMXFull" and "gc" not in case["mol"]:
         pows = list(st.pows)
         nd = getattr(st, "ndterms", 0)
         n1 = getattr(st, "n1terms", 0)
